@@ -28,6 +28,7 @@ Record tcase := {
   c_m0 : N;                        (* store version after NewStore (observed, an input of the model) *)
   c_ops : list op;                 (* the history, write/restart stamped with the observed store version *)
   c_sid : bytes;                   (* content of the store's DATAHUB_BACKUPID (hub-generated or operator-assigned) *)
+  c_rsync : bool;                  (* BackupRsync mode (every tick is an [OBackupRsync]); restore = open the copy *)
   c_foreign : bool;                (* the location is pre-filled: an id file, somebody's backup file and cursor *)
   c_locid0 : bytes;                (* ... content of that id file *)
   (* observed on the implementation *)
@@ -35,6 +36,7 @@ Record tcase := {
   o_locid0 : option bytes;         (* the location's id file before the first step *)
   o_steps : list obs_step;         (* per op: lastID, datahub-backup.lastseen, result of Run, kv file changed,
                                       the location's id file afterwards, any file of the location changed *)
+  o_diskraw : list (option bytes); (* per op: the raw bytes of datahub-backup.lastseen *)
   o_snap : option (list row);      (* source listing when the last returned backup run started *)
   o_restored : option (list row);  (* listing of the hub restored with DB.Load; None = no backup file *)
   o_rich_eq : bool;                (* all reads of the restored hub equal those of the source at that moment *)
@@ -55,7 +57,8 @@ Definition optbytes_eqb (a b : option bytes) : bool :=
 Definition step_eqb (a b : obs_step) : bool :=
   (x_cursor a =? x_cursor b) && optN_eqb (x_disk a) (x_disk b) && (x_res a =? x_res b)
   && Bool.eqb (x_grew a) (x_grew b) && optbytes_eqb (x_locid a) (x_locid b)
-  && Bool.eqb (x_touched a) (x_touched b).
+  && Bool.eqb (x_touched a) (x_touched b) && bytes_eqb (x_sid a) (x_sid b)
+  && Bool.eqb (x_running a) (x_running b).
 Definition optrows_eqb (a b : option (list row)) : bool :=
   match a, b with Some x, Some y => rows_eqb x y | None, None => true | _, _ => false end.
 
@@ -72,7 +75,8 @@ Definition predict (v : variant) (c : tcase) : prediction :=
   let st0 := init_of v c in
   let '(xs, st) := trace v (c_ops c) st0 in
   {| p_cursor0 := s_cursor st0; p_locid0 := loc_id (s_fs st0); p_steps := xs; p_snap := s_snap st;
-     p_file := match fs_get (s_fs st) FKv with Some (DEntries l) => Some (badger_load l) | _ => None end |}.
+     p_file := match fs_get (s_fs st) (if c_rsync c then FCopy else FKv) with
+               | Some (DEntries l) => Some (badger_load l) | _ => None end |}.
 
 (** The model does not know which lost Badger entries are visible to which read API, so about
     the all-reads comparison and the key-level comparison it only claims: same entry set => all
@@ -80,7 +84,7 @@ Definition predict (v : variant) (c : tcase) : prediction :=
     driver reports false.  The listing is predicted exactly. *)
 Definition rich_claim (p : prediction) (c : tcase) : bool :=
   match p_snap p, p_file p with
-  | Some s, Some f => if sets_eqb f s then o_rich_eq c && o_raw_eq c else true
+  | Some s, Some f => if sets_eqb f s then o_rich_eq c && (c_rsync c || o_raw_eq c) else true
   | _, _ => negb (o_rich_eq c) && negb (o_raw_eq c)
   end.
 
@@ -89,19 +93,38 @@ Definition agree (v : variant) (c : tcase) : bool :=
   (p_cursor0 p =? o_cursor0 c)
   && optbytes_eqb (p_locid0 p) (o_locid0 c)
   && list_eqb step_eqb (p_steps p) (o_steps c)
+  (* the cursor file holds exactly the 8-byte little-endian encoding of the predicted cursor *)
+  && list_eqb optbytes_eqb (map (fun x => option_map le64_enc (x_disk x)) (p_steps p)) (o_diskraw c)
   && optrows_eqb (option_map listing (p_snap p)) (o_snap c)
   && (if c_foreign c then true   (* a pre-filled location is not restored by the driver *)
       else optrows_eqb (option_map listing (p_file p)) (o_restored c) && rich_claim p c).
 
 (** "a location that belongs to a different store is never overwritten": a step of the HUB taken
     while the location's id file exists and differs from the store's leaves every file of the
-    location unchanged and is not a returned backup run.  [prev] = id file before the step. *)
+    location unchanged and is not a returned backup run.  [sid], [prev] = the store's and the
+    location's id file before the step. *)
 Fixpoint foreign_ok (sid : bytes) (prev : option bytes) (ops : list op) (xs : list obs_step) : bool :=
   match ops, xs with
   | o :: ops', x :: xs' =>
     (if is_env o then true
      else if is_foreign sid prev then negb (x_touched x) && negb (x_res x =? R_RETURNED) else true)
-    && foreign_ok sid (x_locid x) ops' xs'
+    && foreign_ok (x_sid x) (x_locid x) ops' xs'
+  | [], [] => true
+  | _, _ => false
+  end.
+
+(** every tick is a run: a tick may only be skipped (isRunning found set) when an earlier tick of
+    the same process panicked (refused location) - no run is ever in progress in a sequential
+    history, so any other skip means the flag was not released.  [stuck] = a tick panicked since
+    the last restart. *)
+Definition is_tick (o : op) : bool := is_native o || is_rsync o.
+Definition is_restart (o : op) : bool := match o with ORestart _ => true | _ => false end.
+Fixpoint skip_ok (stuck : bool) (ops : list op) (xs : list obs_step) : bool :=
+  match ops, xs with
+  | o :: ops', x :: xs' =>
+    (if (x_res x =? R_SKIPPED) then stuck else true)
+    && skip_ok (if is_restart o then false
+                else if (x_res x =? R_REFUSED) || (x_res x =? 3) then true else stuck) ops' xs'
   | [], [] => true
   | _, _ => false
   end.
@@ -109,11 +132,12 @@ Fixpoint foreign_ok (sid : bytes) (prev : option bytes) (ops : list op) (xs : li
 (** the executable spec S, evaluated on the implementation's observations only *)
 Definition spec_ok (c : tcase) : bool :=
   foreign_ok (c_sid c) (o_locid0 c) (c_ops c) (o_steps c) &&
+  skip_ok false (c_ops c) (o_steps c) &&
   if c_foreign c then true
   else match o_snap c with
        | None => true                       (* no backup run returned: nothing is promised *)
        | Some s => match o_restored c with
-                   | Some r => rows_eqb r s && o_rich_eq c
+                   | Some r => rows_eqb r s && o_rich_eq c   (* [o_raw_eq] is stronger than the property: not required *)
                    | None => false
                    end
        end.
